@@ -228,7 +228,7 @@ def generate():
             if ty != "i32":
                 raise ValueError("pushes a %s" % ty)
             params = " ".join(pops)
-            out.append("(* %s *)" % " ".join(text.split()))
+            out.append("(* %s *)" % " ".join(text.split()).replace("(*", "( *").replace("*)", "* )"))
             out.append("Definition gen_%s (%s : Z) : Z := %s." % (name, params, term))
             if guard:
                 gt, gty = emit(parse(guard))
@@ -237,7 +237,7 @@ def generate():
                 out.append("Definition gen_%s_none (%s : Z) : bool := %s." % (name, params, gt))
             status[name] = True
         except Exception as ex:       # noqa
-            out.append("(* %s: NOT TRANSLATED: %s *)" % (name, str(ex).replace("*)", "* )")))
+            out.append("(* %s: NOT TRANSLATED: %s *)" % (name, str(ex).replace("(*", "( *").replace("*)", "* )")))
             status[name] = False
         out.append("")
     text = "\n".join(out) + "\n"
